@@ -10,7 +10,7 @@ open Iox2.C16.SlotMapP (abs)
 attribute [-simp] List.getD_eq_getElem?_getD
 
 /-- the state after `retrieveReturned`, as far as a loan is concerned -/
-theorem after_retrieve {cfg : Cfg} {w : World} (h : Inv cfg w) {p : Nat} {P : Pub} (hp : getP w p = some P)
+theorem after_retrieve {cfg : Cfg} (hpre : cfg.prealloc = none) {w : World} (h : Inv cfg w) {p : Nat} {P : Pub} (hp : getP w p = some P)
     (hal : P.alive = true) :
     Inv cfg (retrieveReturned w p) ∧
     ∃ P', getP (retrieveReturned w p) p = some P' ∧ PoolEq P P' ∧ P'.maxLoans ≤ P'.free.length + P'.loans.length := by
@@ -18,12 +18,12 @@ theorem after_retrieve {cfg : Cfg} {w : World} (h : Inv cfg w) {p : Nat} {P : Pu
   obtain ⟨_, s2, _, s4⟩ := retrieveReturned_shape w p
   obtain ⟨P', hp', e⟩ := s2 P hp
   refine ⟨h1, P', hp', e, ?_⟩
-  apply free_bound h1 hp' (e.sim.alive.trans hal)
+  apply free_bound hpre h1 hp' (e.sim.alive.trans hal)
   intro s c hs hc
   obtain ⟨c0, hc0, _, k2, _⟩ := s4 p s c hc
   exact k2 P rfl hp (by rw [← e.sim.conns]; exact hs)
 
-theorem step_loan {cfg : Cfg} {w : World} (h : Inv cfg w) (p l : Nat) :
+theorem step_loan {cfg : Cfg} (hpre : cfg.prealloc = none) {w : World} (h : Inv cfg w) (p l : Nat) :
     Inv cfg (step w (.loan p l)).1 ∧
     (step w (.loan p l)).2 ≠ "err:OutOfMemory" ∧
     (w.panicked = false → (step w (.loan p l)).1.panicked = false) ∧
@@ -53,7 +53,7 @@ theorem step_loan {cfg : Cfg} {w : World} (h : Inv cfg w) (p l : Nat) :
       exact absurd m2 (hfresh lc m1)
     | none =>
       simp only [Option.isSome_none, Bool.false_eq_true, if_false]
-      obtain ⟨h1, P, hp1, epool, hbound⟩ := after_retrieve h hp hal
+      obtain ⟨h1, P, hp1, epool, hbound⟩ := after_retrieve hpre h hp hal
       have M0 := (h.p p P0 hp).2 hal
       obtain ⟨f1, f2, f3, f4, f5, f6, f7, f8, f9, f10, f11, f12, f13, f14, f15⟩ := epool.fields
       have hal1 : P.alive = true := f1.trans hal
